@@ -20,13 +20,13 @@ def c02_post(m, env):
 
 REGISTRY = {
     "C19": {"level": "exploration", "tiers": {
-        "quick": {"workers": 8, "n_hist": 1200, "n_neg": 64},
+        "quick": {"workers": 8, "n_hist": 2400, "n_neg": 64},
         "thorough": {"workers": 16, "n_hist": 600000, "n_neg": 8000}}},
     "C14": {"level": "exploration", "tiers": {
-        "quick": {"workers": 8, "n_files": 6000},
+        "quick": {"workers": 8, "n_files": 12000},
         "thorough": {"workers": 16, "n_files": 1800000}}},
     "C11": {"level": "exploration", "tiers": {
-        "quick": {"workers": 8, "n_hist": 640},
+        "quick": {"workers": 16, "n_hist": 1600},
         "thorough": {"workers": 16, "n_hist": 160000}}},
     "C12": {"level": "exploration", "tiers": {
         "quick": {"workers": 16, "n_hist": 150, "n_scale": 4,
@@ -37,10 +37,10 @@ REGISTRY = {
         "quick": {"workers": 16, "n_hist": 320},
         "thorough": {"workers": 16, "n_hist": 30000}}},
     "C06": {"level": "exploration", "tiers": {
-        "quick": {"workers": 8, "n_hist": 480},
+        "quick": {"workers": 16, "n_hist": 1200},
         "thorough": {"workers": 16, "n_hist": 120000}}},
     "C13": {"level": "exploration", "tiers": {
-        "quick": {"workers": 8, "n_hist": 480},
+        "quick": {"workers": 16, "n_hist": 1600},
         "thorough": {"workers": 16, "n_hist": 180000}}},
     "C03": {"level": "exploration", "tiers": {
         "quick": {"workers": 16, "n_hist": 480},
